@@ -734,4 +734,43 @@ theorem joinRecords_length (mode : Nat) (gs : List Nat) : (joinRecords mode gs).
     simp only [joinRecords, List.flatMap_cons, List.length_append, encInt_length, beBytes_length, List.length_cons] at ih ⊢
     omega
 
+/-! ### links to the declarative layouts -/
+
+theorem ethFrame_eq_spec (s : Eth) (fcs : Bool) :
+    ethFrame s fcs = Spec.Ethernet.encode s.dstmac s.srcmac (if s.vlan then some s.vlantag else none) s.type s.payload fcs := by
+  have hb : ethHdr s ++ s.payload =
+      Spec.Ethernet.body s.dstmac s.srcmac (if s.vlan then some s.vlantag else none) s.type s.payload := by
+    cases hv : s.vlan <;> simp [ethHdr, ethTypePart, Spec.Ethernet.body, hv, encInt, ETH_TYPE_VLAN]
+  cases fcs
+  · simp [ethFrame, ethFcs, Spec.Ethernet.encode, ← hb]
+  · simp [ethFrame, ethFcs, Spec.Ethernet.encode, ← hb]
+
+theorem be2_split (n : Nat) : beBytes 2 n = beBytes 1 (n / 256) ++ beBytes 1 (n % 256) := by
+  simpa using beBytes_add 1 1 n
+
+theorem ipHeader_eq_spec (s : IP) (src dst c : Nat) (h : IP_WF s src dst) :
+    ipHeader s (beBytes 2 c) src dst =
+      Spec.IPv4.header s.dscp (20 + s.payload.length) s.ident s.flags (s.fragment_offset / 8) s.ttl s.protocol c src dst := by
+  obtain ⟨hs, hd, h1, h2, h3, h4, h5, h6, h7, h8, h9, h10⟩ := h
+  have e1 : (s.flags * 8192 + s.fragment_offset / 8) / 256 = s.flags * 32 + s.fragment_offset / 8 / 256 := by omega
+  have e2 : (s.flags * 8192 + s.fragment_offset / 8) % 256 = s.fragment_offset / 8 % 256 := by omega
+  simp only [ipHeader, ipFront, ipBack, Spec.IPv4.header, encInt, if_true, be2_split (s.flags * 8192 + s.fragment_offset / 8), e1, e2]
+  have : beBytes 1 69 = [0x45] := by decide
+  simp [this]
+
+/-- fewer than 14 bytes: one of the three header reads raises struct.error -/
+theorem Eth_unpack_short (t : Eth) (buf : Bytes) (fcs : Bool) (h : buf.length < 14) :
+    (Eth.unpack t buf fcs).2 = .error .struct := by
+  by_cases h6 : buf.length < 6
+  · rw [Eth.unpack, unpack48_error _ (by simp; omega)]
+  · by_cases h12 : buf.length < 12
+    · rw [Eth.unpack, unpack48_eq _ (by simp; omega)]
+      simp only
+      rw [unpack48_error _ (by simp; omega)]
+    · rw [Eth.unpack, unpack48_eq _ (by simp; omega)]
+      simp only
+      rw [unpack48_eq _ (by simp; omega)]
+      have : ¬ (12 + (2 + 0) ≤ buf.length) := by omega
+      simp [structUnpackFrom, Eth_unpack_fmt0, Fmt.size, codesSize, Code.size, this]
+
 end Acra.Lemmas.Net
